@@ -309,6 +309,37 @@ def f5_cells(seed, n_random=12):
                  Assign(Field(Field(o2, "inner", ity), "z", t), Bin("+", Field(Field(o2, "inner", ity), "x", t), c, t))]
         res = Bin("+", Bin("*", Field(Field(o, "inner", ity), "z", t), Lit(t, 2), t), Field(Field(o2, "inner", ity), "z", t), t)
         out.append(P(f"f5_nested_{t}", "F5", Program([fn_main([("a", t), ("b", t), ("c", t)], t, stmts, res)], records={"In": inner, "Out": outer}), {"value"}))
+    # structural equality of enum values holding the same / different variants (generated eq functions), also nested in a record
+    for idx, (t, variants_) in enumerate([("u8", [("A", ["u8"]), ("B", ["u8"])]), ("u8", [("A", ["u8"]), ("B", ["u8", "u8"]), ("C", [])]),
+                                          ("i64", [("A", ["u8", "i64"]), ("B", ["i64", "u16"]), ("C", ["u16"])])]):
+        ename = f"Q{idx}"
+        ety = ("enum", ename)
+        a, b, c = Var("a", t), Var("b", t), Var("c", t)
+        for vi, (vn, fts) in enumerate(variants_):
+            def args(second):
+                out_ = []
+                used = 0
+                for ft in fts:
+                    if ft == t:
+                        out_.append([a, b][used % 2] if not second else [a, c][used % 2])
+                        used += 1
+                    else:
+                        out_.append(Lit(ft, 5))
+                return out_
+            x, y = Ctor(ety, vn, args(False)), Ctor(ety, vn, args(True))
+            res = If(Bin("==", Var("x", ety), Var("y", ety), "bool"), Block([], Lit(t, 1), t), Block([], If(Bin("!=", Var("x", ety), Var("y", ety), "bool"), Block([], Lit(t, 2), t), Block([], Lit(t, 3), t), t), t), t)
+            out.append(P(f"f5_enum_eq_{idx}_{vn}", "F5", Program([fn_main([("a", t), ("b", t), ("c", t)], t, [Let("x", ety, x), Let("y", ety, y)], res)], enums={ename: variants_}), {"value"}))
+            # wrapped in a record with a trailing field
+            rty = ("rec", f"W{idx}")
+            rx = RecLit(rty, [("e", x), ("k", Lit("u8", 9))])
+            ry = RecLit(rty, [("e", y), ("k", Lit("u8", 9))])
+            res2 = If(Bin("==", Var("x", rty), Var("y", rty), "bool"), Block([], Lit(t, 1), t), Block([], Lit(t, 0), t), t)
+            out.append(P(f"f5_enum_in_record_eq_{idx}_{vn}", "F5", Program([fn_main([("a", t), ("b", t), ("c", t)], t, [Let("x", rty, rx), Let("y", rty, ry)], res2)],
+                                                                       enums={ename: variants_}, records={f"W{idx}": [("e", ety), ("k", "u8")]}), {"value"}))
+        # different variants are never equal
+        x, y = Ctor(ety, variants_[0][0], [a if ft == t else Lit(ft, 5) for ft in variants_[0][1]]), Ctor(ety, variants_[1][0], [a if ft == t else Lit(ft, 5) for ft in variants_[1][1]])
+        out.append(P(f"f5_enum_eq_{idx}_mixed", "F5", Program([fn_main([("a", t), ("b", t), ("c", t)], t, [Let("x", ety, x), Let("y", ety, y)],
+                     If(Bin("==", Var("x", ety), Var("y", ety), "bool"), Block([], Lit(t, 1), t), Block([], Lit(t, 0), t), t))], enums={ename: variants_}), {"value"}))
     # user enums with payloads of mixed widths, selected by input, matched with guards
     for idx, (t, variants_) in enumerate([("u8", [("A", ["u8", "i64"]), ("B", ["u16"]), ("C", [])]),
                                           ("i32", [("A", ["i32"]), ("B", ["u8", "i32", "u8"]), ("C", []), ("D", ["u64"])]),
@@ -556,9 +587,98 @@ def f9_cells():
     return out
 
 
+# ------------------------------------------------------------------------------------------- F10 boundary identity (C05)
+def f10_cells():
+    out = []
+    scal = INT_T + FLT_T + ["bool", "char"]
+    for t in scal:
+        a = Var("a", t)
+        out.append(P(f"f10_id_{t}", "F10", Program([fn_main([("a", t)], t, [], a)]), {"value"}))
+        if t != "bool":
+            out.append(P(f"f10_through_host_{t}", "F10", Program([fn_main([("a", t)], t, [ExprStmt(Host(f"emit_{t}", [a], "unit"))], Host(f"pure_{t}", [a], t))]), {"value", "trace"}))
+    # Option / Verdict built in the script and read by Rust; Option passed in by Rust and matched in the script
+    i32, u8, u64 = "i32", "u8", "u64"
+    a, b = Var("a", i32), Var("b", i32)
+    oi = ("opt", i32)
+    out.append(P("f10_ret_option_i32", "F10", Program([fn_main([("a", i32), ("b", i32)], oi, [], If(Bin("<", a, b, "bool"), Block([], Ctor(oi, "Some", [Bin("-", a, b, i32)]), oi), Block([], Ctor(oi, "None", []), oi), oi))]), {"value"}))
+    out.append(P("f10_ret_option_i32_1", "F10", Program([fn_main([("a", i32)], oi, [], If(Bin(">", a, Lit(i32, 0), "bool"), Block([], Ctor(oi, "Some", [a]), oi), Block([], Ctor(oi, "None", []), oi), oi))]), {"value"}))
+    ou8 = ("opt", u8)
+    x8 = Var("a", u8)
+    out.append(P("f10_ret_option_u8", "F10", Program([fn_main([("a", u8)], ou8, [], If(Bin(">", x8, Lit(u8, 7), "bool"), Block([], Ctor(ou8, "Some", [x8]), ou8), Block([], Ctor(ou8, "None", []), ou8), ou8))]), {"value"}))
+    ou64 = ("opt", u64)
+    x64 = Var("a", u64)
+    out.append(P("f10_ret_option_u64", "F10", Program([fn_main([("a", u64)], ou64, [], If(Bin(">", x64, Lit(u64, 7), "bool"), Block([], Ctor(ou64, "Some", [Bin("*", x64, Lit(u64, 3), u64)]), ou64), Block([], Ctor(ou64, "None", []), ou64), ou64))]), {"value"}))
+    o = Var("o", oi)
+    out.append(P("f10_arg_option_i32", "F10", Program([fn_main([("o", oi)], i32, [], Match(o, [("Some", ["v"], None, Bin("+", Var("v", i32), Lit(i32, 1), i32)), ("None", [], None, Lit(i32, -7))], i32))]), {"value"}))
+    out.append(P("f10_arg_option_i32_second", "F10", Program([fn_main([("o", oi), ("b", i32)], i32, [Let("p", oi, o)], Match(Var("p", oi), [("Some", ["v"], Bin(">", Var("v", i32), b, "bool"), Var("v", i32)), ("Some", ["v"], None, b), ("None", [], None, Bin("-", b, Lit(i32, 1), i32))], i32))]), {"value"}))
+    vii = ("verdict", i32, i32)
+    out.append(P("f10_ret_verdict_i32_i32", "F10", Program([fn_main([("a", i32), ("b", i32)], vii, [], If(Bin("<", a, b, "bool"), Block([], Ctor(vii, "Accept", [a]), vii), Block([], Ctor(vii, "Reject", [Bin("+", b, Lit(i32, 1), i32)]), vii), vii))]), {"value"}))
+    v8 = ("verdict", u8, u64)
+    a8, b8 = Var("a", u8), Var("b", u8)
+    out.append(P("f10_ret_verdict_u8_u64", "F10", Program([fn_main([("a", u8), ("b", u8)], v8, [], If(Bin("<", a8, b8, "bool"), Block([], Ctor(v8, "Accept", [b8]), v8), Block([], Ctor(v8, "Reject", [Lit(u64, 0x1122334455667788)]), v8), v8))]), {"value"}))
+    viu = ("verdict", i32, "unit")
+    out.append(P("f10_ret_verdict_i32_unit", "F10", Program([fn_main([("a", i32)], viu, [], If(Bin("<", a, Lit(i32, 0), "bool"), Block([], Ctor(viu, "Accept", [a]), viu), Block([], Ctor(viu, "Reject", [Lit("unit", None)]), viu), viu))]), {"value"}))
+    return out
+
+
+# ------------------------------------------------------------------------------------------- F11 lists
+def f11_cells():
+    out = []
+    T = "Tracked"
+    a, b = Var("a", "i32"), Var("b", "i32")
+    zero, one = Lit("i32", 0), Lit("i32", 1)
+    mk = lambda e: Host("mk", [e], T)
+    peek = lambda e: Host("peek", [e], "i32")
+    lt = ("list", T)
+    tot = Var("total", "i32")
+    t = Var("t", T)
+    three = ListLit(lt, [mk(Lit("i32", 1)), mk(Lit("i32", 2)), mk(Lit("i32", 3))])
+    cases = {
+        "for_complete": ([Let("total", "i32", zero), ExprStmt(For("t", T, three, Block([Assign(tot, peek(t), "+")], None, "unit")))], tot),
+        "for_early_return": ([Let("total", "i32", zero), ExprStmt(For("t", T, three, Block([
+            ExprStmt(If(Bin("==", peek(t), a, "bool"), Block([ExprStmt(Ret(Bin("+", tot, Lit("i32", 100), "i32")))], None, "unit"), None, "unit")),
+            Assign(tot, one, "+")], None, "unit")))], tot),
+        "for_unused_elem": ([Let("total", "i32", zero), ExprStmt(For("t", T, three, Block([Assign(tot, one, "+")], None, "unit")))], tot),
+        "list_unused": ([Let("l", lt, ListLit(lt, [mk(a), mk(b)]))], a),
+        "list_copy_push": ([Let("l", lt, ListLit(lt, [mk(a)])), Let("m", lt, Var("l", lt)), ExprStmt(Method(Var("m", lt), "push", [mk(b)], "unit")),
+                            Let("total", "i32", zero), ExprStmt(For("t", T, Var("l", lt), Block([Assign(tot, peek(t), "+")], None, "unit")))], tot),
+        "get_some_none": ([Let("l", lt, ListLit(lt, [mk(a), mk(b)]))], Match(Method(Var("l", lt), "get", [Lit("u64", 1)], ("opt", T)), [
+            ("Some", ["x"], Bin(">", b, zero, "bool"), peek(Var("x", T))), ("Some", ["x"], None, zero), ("None", [], None, one)], "i32")),
+        "for_empty": ([Let("l", lt, ListLit(lt, [mk(a)])), Let("total", "i32", zero),
+                       ExprStmt(If(Bin(">", a, zero, "bool"), Block([ExprStmt(For("t", T, Var("l", lt), Block([Assign(tot, peek(t), "+")], None, "unit")))], None, "unit"), None, "unit"))], tot),
+    }
+    for name, (stmts, e) in cases.items():
+        out.append(P(f"f11_tracked_{name}", "F11", Program([fn_main([("a", "i32"), ("b", "i32")], "i32", stmts, e)]), {"ledger", "value", "trace"}))
+    # lists are the one shared type: copies observe pushes, also from inside a for loop over the list
+    u = "u64"
+    x, y = Var("a", u), Var("b", u)
+    lu = ("list", u)
+    l, m = Var("l", lu), Var("m", lu)
+    tt = Var("t", u)
+    out.append(P("f11_shared_push", "F11", Program([fn_main([("a", u), ("b", u)], u, [
+        Let("l", lu, ListLit(lu, [x, y])), Let("m", lu, l), ExprStmt(Method(m, "push", [Lit(u, 7)], "unit")),
+        Let("t", u, Method(l, "len", [], u)),
+        ExprStmt(For("e", u, l, Block([Assign(tt, Var("e", u), "+")], None, "unit")))],
+        Match(Method(m, "get", [y], ("opt", u)), [("Some", ["v"], None, Bin("+", tt, Var("v", u), u)), ("None", [], None, tt)], u))]), {"value"}))
+    out.append(P("f11_push_inside_for", "F11", Program([fn_main([("a", u), ("b", u)], u, [
+        Let("l", lu, ListLit(lu, [x])), Let("t", u, Lit(u, 0)),
+        ExprStmt(For("e", u, l, Block([
+            ExprStmt(If(Bin("<", Method(l, "len", [], u), Lit(u, 3), "bool"), Block([ExprStmt(Method(l, "push", [Bin("+", Var("e", u), y, u)], "unit"))], None, "unit"), None, "unit")),
+            Assign(tt, Var("e", u), "+")], None, "unit")))], Bin("+", tt, Method(l, "len", [], u), u))]), {"value"}))
+    # element order of a list literal with effects
+    i32 = "i32"
+    pu = lambda e: Host("pure_i32", [e], i32)
+    li = ("list", i32)
+    c = Var("c", i32)
+    out.append(P("f11_literal_element_order", "F11", Program([fn_main([("a", i32), ("b", i32), ("c", i32)], i32, [
+        Let("l", li, ListLit(li, [pu(a), pu(pu(b)), pu(c)])), Let("s", i32, zero),
+        ExprStmt(For("e", i32, Var("l", li), Block([Assign(Var("s", i32), Bin("-", Bin("*", Var("s", i32), Lit(i32, 3), i32), Var("e", i32), i32))], None, "unit")))], Var("s", i32))]), {"trace", "value"}))
+    return out
+
+
 def corpus(seed, tier):
     n3 = 40 if tier == "quick" else 300
     n7 = 20 if tier == "quick" else 150
     progs = f1_cells() + f2_cells() + f3_random(seed, n3) + f4_cells() + f5_cells(seed, 8 if tier == "quick" else 40) + f6_cells() \
-        + f7_cells() + f3_random(seed + 1000, n7, depth=2, effects=True, fam="F7R") + f8_cells(seed, 20 if tier == "quick" else 120) + f9_cells()
+        + f7_cells() + f10_cells() + f11_cells() + f3_random(seed + 1000, n7, depth=2, effects=True, fam="F7R") + f8_cells(seed, 20 if tier == "quick" else 120) + f9_cells()
     return progs
